@@ -104,6 +104,14 @@ def make(rng, name, node=False, with_starts=None, with_ignore=None, with_cons=No
                 cons.append(c)
         if cons:
             kw["subset_constraints" if cyclic else "subpath_constraints"] = cons; info["cons"] = cons
+            if not cyclic and not node and rng.random() < 0.3:
+                # coverage by length: edge lengths on some edges (missing = 1), fraction < 1 or 1
+                for e in G.edges():
+                    if rng.random() < 0.7:
+                        G.edges[e]["len"] = rng.choice([1, 2, 3, 5])
+                kw["length_attr"] = "len"
+                kw["subpath_constraints_coverage_length"] = rng.choice([0.5, 0.75, 1])
+                info["coverage_length"] = kw["subpath_constraints_coverage_length"]
     # additional starts / ends
     if name in HAS_STARTS and (rng.random() < 0.3 if with_starts is None else with_starts) and G.number_of_nodes() > 2:
         st = [v for v in G.nodes() if rng.random() < 0.3]
